@@ -3,14 +3,18 @@
 (* models.py (Model.AddCashFlowIncomeExclusion / IncomeExclusions) and the part of     *)
 (* equation.py they use (Equation.AddTerm merging like terms, Term sign parsing).      *)
 (*                                                                                    *)
-(* One action per public call on one sector S of a model (a second sector O of the     *)
-(* same country exists only to receive exclusions that must not concern S):            *)
+(* One action per public call on one sector S (Code 'S', in country C1) of a model.     *)
+(* Two more sectors of the same Model exist only to receive exclusions that must not    *)
+(* concern S:  T, the "twin" - a sector with the SAME local Code 'S' in a second         *)
+(* Country C2 - and O, a sector with another Code in C1.  An income exclusion is made    *)
+(* for a sector OBJECT: local codes are unique only within a country, so an exclusion    *)
+(* registered for T (same Code, other object) is not an exclusion "for that sector" S.   *)
 (*   AddVariable(a)   S.AddVariable(a.body, '', a.eqn)                                 *)
 (*   SetRHS(a)        S.SetEquationRightHandSide(a.body, a.eqn)   (variable exists)    *)
-(*   Exclude(a)       model.AddCashFlowIncomeExclusion(S if a.own else O, a.body)      *)
+(*   Exclude(a)       model.AddCashFlowIncomeExclusion(<S | T | O by a.who>, a.body)    *)
 (*   AddCashFlow(a)   S.AddCashFlow(TermText(a), eqn = a.eqn if a.he else None,        *)
 (*                                  is_income = a.inc)                                 *)
-(* An action is a record [op, s1, br, s2, body, he, eqn, inc, own] (IsAct).  A flow    *)
+(* An action is a record [op, s1, br, s2, body, he, eqn, inc, who] (IsAct).  A flow    *)
 (* term is a body (flow name A, B or the products A*B, B*A) with a sign / bracket      *)
 (* spelling s1 ( s2 body ): +A, -A, (-A), -(A), -(-A) ...  A defining expression is    *)
 (* only supplied (he) for single-name flows.                                          *)
@@ -33,17 +37,18 @@ D1 == "Z*2"                 \* the two defining expressions
 D2 == "W-1"
 Eqns  == {"", "0.0", D1, D2}
 Signs == {"", "+", "-"}
+Sectors == {"S", "T", "O"}      \* this sector; its twin (same Code, other Country); another Code
 
 IsAct(a) ==
-    /\ DOMAIN a = {"op", "s1", "br", "s2", "body", "he", "eqn", "inc", "own"}
+    /\ DOMAIN a = {"op", "s1", "br", "s2", "body", "he", "eqn", "inc", "who"}
     /\ a.op \in {"CF", "AV", "SR", "EX"}
     /\ a.s1 \in Signs /\ a.s2 \in Signs /\ a.br \in BOOLEAN /\ (a.br \/ a.s2 = "")
     /\ a.body \in Bodies /\ a.eqn \in Eqns
-    /\ a.he \in BOOLEAN /\ a.inc \in BOOLEAN /\ a.own \in BOOLEAN
+    /\ a.he \in BOOLEAN /\ a.inc \in BOOLEAN /\ a.who \in Sectors
     /\ a.op = "CF" => /\ a.he => a.body \in FlowNames      \* "the flow variable" of a product is not a variable
                       /\ ~a.he => a.eqn = ""
-                      /\ a.own
-    /\ a.op \in {"AV", "SR"} => a.body \in FlowNames /\ a.he /\ a.s1 = "" /\ ~a.br /\ a.inc /\ a.own
+                      /\ a.who = "S"
+    /\ a.op \in {"AV", "SR"} => a.body \in FlowNames /\ a.he /\ a.s1 = "" /\ ~a.br /\ a.inc /\ a.who = "S"
     /\ a.op = "EX" => ~a.he /\ a.eqn = "" /\ a.s1 = "" /\ ~a.br /\ a.inc
 
 ASSUME \A a \in Alphabet : IsAct(a)
@@ -95,6 +100,7 @@ Blank(c) == c.k \in {"absent", "empty", "zero"}     \* what AddCashFlow may defi
 
 ----------------------------------------------------------------------------
 (* the operations, on a state record s = [defs, F, INC, excl, exclO, log] *)
+(* excl: names excluded for the object S; exclO: << sector, name >> excluded for T or O   *)
 
 AddVariableOp(s, a) ==          \* an existing variable is overwritten
     [s EXCEPT !.defs = [s.defs EXCEPT ![a.body] = ClassOfEqn(a.eqn)],
@@ -105,12 +111,12 @@ SetRHSOp(s, a) ==
               !.log  = Append(s.log, [a |-> a, ex |-> FALSE])]
 
 ExcludeOp(s, a) ==
-    [s EXCEPT !.excl  = IF a.own THEN s.excl \cup {a.body} ELSE s.excl,
-              !.exclO = IF a.own THEN s.exclO ELSE s.exclO \cup {a.body},
+    [s EXCEPT !.excl  = IF a.who = "S" THEN s.excl \cup {a.body} ELSE s.excl,
+              !.exclO = IF a.who = "S" THEN s.exclO ELSE s.exclO \cup {<< a.who, a.body >>},
               !.log   = Append(s.log, [a |-> a, ex |-> FALSE])]
 
 (* AddCashFlow: the term goes into F; into INC if is_income and the (sign-stripped) term *)
-(* is not excluded for this sector now; then, with a defining expression, the flow       *)
+(* is not excluded for this sector object now; then, with a defining expression, the flow       *)
 (* variable is created, or defined if its right-hand side renders as '' / '0.0'.         *)
 AddCashFlowOp(s, a) ==
     LET c     == Coef(a)
@@ -135,7 +141,7 @@ VARIABLES defs,     \* flow name -> Absent / empty / zero / defined(d)
           pdefs,    \* defs before the last action (history variable for C06_DefineOnce)
           F, INC,   \* ledgers: body -> coefficient (F additionally holds LAG_F)
           excl,     \* names excluded from income for this sector
-          exclO,    \* names excluded for the other sector
+          exclO,    \* << sector, name >>: exclusions made for the other sector objects T, O
           log       \* history: << [a |-> action, ex |-> excluded at registration time] >>
 
 vars == << defs, pdefs, F, INC, excl, exclO, log >>
@@ -169,9 +175,9 @@ Spec == Init /\ [][Next]_vars
 ----------------------------------------------------------------------------
 (* C06, as a function of the history only *)
 
-(* excluded for this sector by an Exclude that precedes position i *)
+(* excluded for this sector object by an Exclude that precedes position i *)
 ExcludedBefore(lg, i) ==
-    \E j \in 1..(i - 1) : lg[j].a.op = "EX" /\ lg[j].a.own /\ lg[j].a.body = lg[i].a.body
+    \E j \in 1..(i - 1) : lg[j].a.op = "EX" /\ lg[j].a.who = "S" /\ lg[j].a.body = lg[i].a.body
 
 Registered(lg, i) == lg[i].a.op = "CF"
 CountsAsIncome(lg, i) == Registered(lg, i) /\ lg[i].a.inc /\ ~ExcludedBefore(lg, i)
@@ -206,7 +212,7 @@ LogExConsistent == \A i \in 1..Len(log) :
                       log[i].ex = (Registered(log, i) /\ ExcludedBefore(log, i))
 TypeOK == /\ defs \in [FlowNames -> DefStates] /\ pdefs \in [FlowNames -> DefStates]
           /\ DOMAIN F = Bodies /\ DOMAIN INC = Bodies
-          /\ excl \subseteq Bodies /\ exclO \subseteq Bodies
+          /\ excl \subseteq Bodies /\ exclO \subseteq ((Sectors \ {"S"}) \X Bodies)
           /\ Len(log) <= MaxLen
           /\ \A i \in 1..Len(log) : IsAct(log[i].a)
 =============================================================================
